@@ -70,6 +70,17 @@ func compilePolicy(le bool, archName string, p *seccomp.Policy) (res string) {
 		}
 		return instrTokens(insts)
 	}
+	if strings.HasPrefix(archName, "@@>") {
+		// the value keeps whatever architecture the previous (failed) call left in it
+		insts, err := p.Assemble()
+		if err != nil {
+			if insts != nil {
+				return "ERR_WITH_PROGRAM " + errClass(err)
+			}
+			return "ERR " + errClass(err)
+		}
+		return instrTokens(insts)
+	}
 	if i := strings.Index(archName, ">"); i >= 0 {
 		if first, ok := allArches[archName[:i]]; ok {
 			seccomp.SetArchVerif(p, first)
@@ -162,7 +173,7 @@ func cmdCompile() {
 			p := parsePolicy(t)
 			// "@>B": the policy VALUE of the previous case is edited in place (its exported fields are overwritten
 			// with this policy's) and assembled again, for B
-			if strings.HasPrefix(an, "@>") && prevPolicy != nil {
+			if (strings.HasPrefix(an, "@>") || strings.HasPrefix(an, "@@>")) && prevPolicy != nil {
 				prevPolicy.DefaultAction = p.DefaultAction
 				prevPolicy.Syscalls = p.Syscalls
 				p = prevPolicy
